@@ -452,9 +452,9 @@ func genApi() string {
 	}
 	sort.Strings(cks)
 	// packages whose totality is argued operation by operation (lexer/parser/file by the lexer and parser
-	// builders' theorems, ast and optimizer by inspection recorded in Props/C04.lean) are pinned with counts;
-	// checker / conf / expr / vm have no Lean model in C04: only the functions containing such operations are listed
-	counted := map[string]bool{"ast": true, "file": true, "lexer": true, "parser": true, "optimizer": true, "compiler": true}
+	// builders' theorems, the walker's loop indices by inspection recorded in Props/C04.lean) are pinned with counts;
+	// checker / conf / optimizer / expr / vm have no Lean model in C04: only the functions containing such operations are listed
+	counted := map[string]bool{"ast": true, "file": true, "lexer": true, "parser": true}
 	var crow []string
 	other := map[string]bool{}
 	for _, k := range cks {
@@ -466,13 +466,13 @@ func genApi() string {
 			other[parts[0]] = true
 		}
 	}
-	fmt.Fprintf(&sb, "/-- number of distinct partial operations per (function, kind) in unguarded code of ast, file, lexer, parser, optimizer, compiler -/\ndef unguardedPartialOpCounts : List (String × String × Nat) := [\n  %s]\n\n", strings.Join(crow, ",\n  "))
+	fmt.Fprintf(&sb, "/-- number of distinct partial operations per (function, kind) in unguarded code of ast, file, lexer, parser -/\ndef unguardedPartialOpCounts : List (String × String × Nat) := [\n  %s]\n\n", strings.Join(crow, ",\n  "))
 	var orow []string
 	for k := range other {
 		orow = append(orow, k)
 	}
 	sort.Strings(orow)
-	fmt.Fprintf(&sb, "/-- unguarded functions of checker / conf / expr / vm that contain such operations (covered by the harness only) -/\ndef unguardedPartialOpFunctionsElsewhere : List String := [\n  %s]\n\n", strings.Join(quoteAll(orow), ",\n  "))
+	fmt.Fprintf(&sb, "/-- unguarded functions of checker / conf / optimizer / expr / vm that contain such operations (covered by the harness only) -/\ndef unguardedPartialOpFunctionsElsewhere : List String := [\n  %s]\n\n", strings.Join(quoteAll(orow), ",\n  "))
 
 	// 5. dispatchers and producers
 	kinds := astNodeKinds(pr)
